@@ -47,6 +47,7 @@ Act(e) ==
     [] e.op = "enum"     -> OkEnumerate(e.after, e.limit)
     [] e.op = "remove"   -> OkRemove(SeqToSet(e.bs))
     [] e.op = "stream"   -> OkStream
+    [] OTHER             -> FALSE
 Same(r, e) == r.res = e.res /\ r.size = e.size /\ r.list = e.list
 
 FailClasses == {"injected", "other", "failed", "corrupt", "readerr"}
@@ -66,6 +67,14 @@ TFailed == /\ IsEv("op") /\ Live /\ Ev.flt
 
 TRecover == IsEv("recover") /\ Live /\ Ev.res = "ok" /\ Recover /\ Mark
 
+(* reading a whole file back through its schema (C04): succeeds exactly when every blob it needs is present *)
+TWhole == /\ IsEv("op") /\ Live /\ Ev.op = "whole"
+          /\ (Ev.res = "ok") <=> (SeqToSet(Ev.needs) \subseteq present)
+          /\ Ev.res \in {"ok", "notexist", "other", "readerr"}
+          /\ UNCHANGED fvars /\ Mark
+(* every zip in the large store is a valid blob within the size limit whose first entry is contiguous file content *)
+TZips == IsEv("zips") /\ Live /\ Ev.res = "ok" /\ UNCHANGED fvars /\ Mark
+
 (* giving up on a segment: one canonical dead state per line *)
 Canon == /\ present' = {} /\ size' = [b \in Blobs |-> 0]
          /\ caps' = [canRemove |-> TRUE, readOnly |-> FALSE, subfetch |-> "yes"]
@@ -73,7 +82,7 @@ Canon == /\ present' = {} /\ size' = [b \in Blobs |-> 0]
 TGiveUp == ~dead /\ l <= Len(Trace) /\ Ev.ev # "reset" /\ l' = l + 1 /\ dead' = TRUE /\ Canon
 TSkip == dead /\ l <= Len(Trace) /\ Ev.ev # "reset" /\ l' = l + 1 /\ UNCHANGED <<fvars, dead>>
 
-TNext == TReset \/ TNormal \/ TFailed \/ TRecover \/ TGiveUp \/ TSkip
+TNext == TReset \/ TNormal \/ TFailed \/ TRecover \/ TWhole \/ TZips \/ TGiveUp \/ TSkip
 TSpec == TInit /\ [][TNext]_tvars
 TraceAccepted == TLCGet("stats").diameter - 1 = Len(Trace)
 =============================================================================
